@@ -445,6 +445,13 @@ def work_lifecycle(item):
 # ------------------------------------------------------------------------------------------ part C: run() through MagicRobot
 
 
+RUN_FAULTS = [
+    {"mode.on_iteration": 1, "other.on_iteration": 1},
+    {"mode.on_iteration": (1, 3), "other.on_iteration": (1, 3), "mode.on_enable": 1, "other.on_enable": 1},
+    {"mode.on_disable": 1, "other.on_disable": 1, "mode.on_iteration": 2, "other.on_iteration": 2},
+]
+
+
 def work_run(item):
     core.bind_repo()
     R.install()
@@ -465,53 +472,56 @@ def work_run(item):
                         wpilib.SmartDashboard.updateValues()
                 return None
 
-            life = R.run_life(lay, h, observe=observe)
-            res.executions += 1
-            res.transitions += len(life.steps)
-            res.checks += 1
-            exp = {"none": "mode", "auto-selector": ("other" if val == "other" else "mode"), "chooser": {"other": "other", "plain": "mode", "None": None}.get(val, "mode")}[kind]
-            if h[0] == "a":
-                # the selection is written after the first loop iteration: the first period started with the default
-                first_exp = "mode"
-            else:
-                first_exp = exp
-            rp = dict(engine="selector", part="run", history=h, selection=list(sel))
-            if life.end is None or life.end[0] != "exit":
-                res.violation("run:robot-stopped", f"history {h!r} selection {sel}: {life.end!r}", rp)
-                continue
-            # expected mode callbacks from the history
-            want = []
-            prev = None
-            period = 0
-            cur = None
-            for k, st in enumerate(life.steps):
-                m = st["mode"]
-                if m != prev:
-                    if prev == "a" and cur:
-                        want.append(cur + ".on_disable")
-                    if m == "a":
-                        period += 1
-                        cur = first_exp if (period == 1 and h[0] == "a") else exp
-                        if cur:
-                            want.append(cur + ".on_enable")
-                    prev = m
-                if m == "a" and cur:
-                    want.append(cur + ".on_iteration")
-            got = [r[0] for r in life.log if r[0].split(".")[0] in ("mode", "other") and r[0].split(".")[-1] in ("on_enable", "on_iteration", "on_disable")]
-            if got != want:
-                res.violation(f"run:callbacks:{kind}", f"history {h!r} selection {sel}: mode callbacks {got}, expected {want}", rp)
-            # elapsed time passed to on_iteration: non-decreasing within a period, starting at 0
-            last = None
-            for r in life.log:
-                if r[0].endswith(".on_enable") and r[0].split(".")[0] in ("mode", "other"):
-                    last = None
-                if r[0].endswith(".on_iteration"):
-                    if last is None and r[2] != 0:
-                        res.violation("run:elapsed-time-start", f"history {h!r}: first on_iteration got t={r[2]}", rp)
-                    if last is not None and r[2] < last:
-                        res.violation("run:elapsed-time-decreases", f"history {h!r}: on_iteration t={r[2]} after {last}", rp)
-                    last = r[2]
-            res.outcome(core.stable_hash([h, list(sel), got]))
+            # fault plans (FMS attached, so the robot swallows them): a mode callback that raises is still a delivered callback, and
+            # every later callback of the period is delivered as if nothing had happened
+            for plan in ([{}] + (RUN_FAULTS if (kind == "none" or (kind == "chooser" and val == "other")) else [])):
+                life = R.run_life(lay, h, observe=observe, fms=bool(plan), faults=plan)
+                res.executions += 1
+                res.transitions += len(life.steps)
+                res.checks += 1
+                exp = {"none": "mode", "auto-selector": ("other" if val == "other" else "mode"), "chooser": {"other": "other", "plain": "mode", "None": None}.get(val, "mode")}[kind]
+                if h[0] == "a":
+                    # the selection is written after the first loop iteration: the first period started with the default
+                    first_exp = "mode"
+                else:
+                    first_exp = exp
+                rp = dict(engine="selector", part="run", history=h, selection=list(sel), faults={k: (list(v) if isinstance(v, tuple) else v) for k, v in plan.items()})
+                if life.end is None or life.end[0] != "exit":
+                    res.violation("run:robot-stopped", f"history {h!r} selection {sel}: {life.end!r}", rp)
+                    continue
+                # expected mode callbacks from the history
+                want = []
+                prev = None
+                period = 0
+                cur = None
+                for k, st in enumerate(life.steps):
+                    m = st["mode"]
+                    if m != prev:
+                        if prev == "a" and cur:
+                            want.append(cur + ".on_disable")
+                        if m == "a":
+                            period += 1
+                            cur = first_exp if (period == 1 and h[0] == "a") else exp
+                            if cur:
+                                want.append(cur + ".on_enable")
+                        prev = m
+                    if m == "a" and cur:
+                        want.append(cur + ".on_iteration")
+                got = [r[0] for r in life.log if r[0].split(".")[0] in ("mode", "other") and r[0].split(".")[-1] in ("on_enable", "on_iteration", "on_disable")]
+                if got != want:
+                    res.violation(f"run:callbacks:{kind}" + (":after-a-raising-callback" if plan else ""), f"history {h!r} selection {sel} faults {plan}: mode callbacks {got}, expected {want}", rp)
+                # elapsed time passed to on_iteration: non-decreasing within a period, starting at 0
+                last = None
+                for r in life.log:
+                    if r[0].endswith(".on_enable") and r[0].split(".")[0] in ("mode", "other"):
+                        last = None
+                    if r[0].endswith(".on_iteration"):
+                        if last is None and r[2] != 0:
+                            res.violation("run:elapsed-time-start", f"history {h!r}: first on_iteration got t={r[2]}", rp)
+                        if last is not None and r[2] < last:
+                            res.violation("run:elapsed-time-decreases", f"history {h!r}: on_iteration t={r[2]} after {last}", rp)
+                        last = r[2]
+                res.outcome(core.stable_hash([h, list(sel), got, sorted(plan)]))
     return res
 
 
